@@ -473,6 +473,46 @@ pub fn run(cx: &mut Cx) {
                 }
             }
         }
+        // ---- render_component with its per-call flag, through includes and nested components. Only consistent worlds are
+        //      asserted (flag on + every template autoescaped by suffix, flag off + none): what a mixed render does is
+        //      not stated by the property
+        if case % 3 == 0 {
+            for (flag, ext) in [(true, "html"), (false, "txt")] {
+                let parts = vec![
+                    (format!("comps.{ext}"), format!("{{% component card(a) %}}[{{{{ a }}}}|{{% include \"part.{ext}\" %}}|{{{{ <inner a={{a}} /> }}}}|{{{{ body | default(value=\"\") }}}}]{{% endcomponent %}}{{% component inner(a) %}}({{{{ a }}}}{{% include \"part.{ext}\" %}}){{% endcomponent %}}")),
+                    (format!("part.{ext}"), "p{{ a }}{% set c %}{{ a }}{% endset %}{{ c }}".to_string()),
+                    (format!("page.{ext}"), format!("{{{{ <card a={{a}} /> }}}}{{% include \"part.{ext}\" %}}")),
+                ];
+                let Ok(Ok(mut t2)) = guard(|| engine(None, false, &parts)) else {
+                    cx.violation("C01/api-flag-world-rejected", "the component/include world was rejected".to_string(), json!({"templates": parts}));
+                    continue;
+                };
+                t2.set_escape_fn(mark);
+                let mut c2 = Context::new();
+                c2.insert("a", "β&\"<'");
+                for which in ["render_component", "render"] {
+                    let b0 = ESC_CALLS.load(Ordering::Relaxed);
+                    cx.eval();
+                    let r = guard(|| match which {
+                        "render_component" => t2.render_component("card", &c2, Some("bodytext"), flag),
+                        _ => t2.render(&format!("page.{ext}"), &c2),
+                    });
+                    match r {
+                        Ok(Ok(o)) => {
+                            let calls = ESC_CALLS.load(Ordering::Relaxed) - b0;
+                            let ds = depths(&o);
+                            cx.count("per_call_flag_checks", 1);
+                            cx.cell(format!("api-flag|{which}|{flag}"));
+                            let ok = if flag { !ds.is_empty() && ds.iter().all(|(_, d)| *d == 1) } else { ds.iter().all(|(_, d)| *d == 0) && calls == 0 };
+                            if !ok {
+                                cx.violation(&format!("C01/component-include-world-escaping/{which}"), format!("{which} (autoescape {flag} everywhere): {calls} escaper call(s), marked output {o:?}"), json!({"templates": parts, "flag": flag, "api": which}));
+                            }
+                        }
+                        other => cx.violation("C01/api-flag-render-failed", format!("{which} with flag {flag} failed: {:?}", other.map(|x| x.map_err(|e| e.to_string()))), json!({"templates": parts})),
+                    }
+                }
+            }
+        }
         let (t2, r2) = (p.tpls.clone(), p.route.clone());
         cx.sample(|| json!({"templates": t2, "route": r2, "marked_output": clip(&out_b, 200), "default_escaper_output": clip(&out_a, 200)}));
     }
